@@ -22,6 +22,7 @@ import (
 
 	"github.com/TarsCloud/TarsGo/tars"
 	"github.com/TarsCloud/TarsGo/tars/protocol/codec"
+	"github.com/TarsCloud/TarsGo/tars/protocol/res/basef"
 	"github.com/TarsCloud/TarsGo/tars/protocol/res/requestf"
 	"github.com/TarsCloud/TarsGo/tars/util/current"
 	"github.com/TarsCloud/TarsGo/tars/util/rogger"
@@ -34,10 +35,22 @@ import (
 )
 
 var rec = tr.New()
-// one-way calls issued and not yet seen by the implementation (a plain counter: an implementation that is shown another
-// call's status must not crash the harness -- the trace says what happened)
+
+// one-way calls issued whose server side has not finished yet (a plain counter, decremented by the server hook
+// tcp.handler.invoked for every one-way request packet: neither the implementation nor the maps it is shown take part, so
+// a call that reaches the implementation with foreign or swapped context/status cannot confuse the bookkeeping -- the
+// trace says what happened)
 var oneWayPending int64
 var writtenRound, twoWayRound int64 // replies seen by the server hook / two-way calls issued in this round
+
+// serialCall is the id of the only call under way in a serial round (0 otherwise): calls made without any option map
+// carry no vcall key and are attributed through it.
+var serialCall int64
+var callsMade int64
+
+// what the harness knows about the calls of the current round: number of option maps the caller passed (the
+// implementation sets a response context only if the caller has a map to receive it in)
+var callOpts sync.Map // call id -> int
 
 func cstr(v interface{}) string {
 	b, _ := json.Marshal(v)
@@ -89,23 +102,35 @@ func errString(err error) string {
 // ---------------------------------------------------------------- recording implementation
 type impl struct{ seed int64 }
 
-func callID(m map[string]string) int {
-	n, _ := strconv.Atoi(m["vcall"])
-	return n
+// callID attributes an event to a call: the key vcall, looked for in the request context (where the caller put it) and
+// in the request status (where it lands if the two maps get exchanged on the way: the trace must show that call's
+// implementation receiving the wrong maps, not an event of "call 0"); without any map the only call under way.
+// 0 = cannot be attributed (TLC rejects such an event).
+func callID(ctx, status map[string]string) int {
+	if v, ok := ctx["vcall"]; ok {
+		n, _ := strconv.Atoi(v)
+		return n
+	}
+	if v, ok := status["vcall"]; ok {
+		n, _ := strconv.Atoi(v)
+		return n
+	}
+	return int(atomic.LoadInt64(&serialCall))
 }
 
 // do records what the implementation received, produces the results (deterministic in the call id) and records them.
 func (h *impl) do(ctx context.Context, fn string, ins []interface{}, ret interface{}, outs []interface{}) error {
 	rctx, _ := current.GetRequestContext(ctx)
 	rstatus, _ := current.GetRequestStatus(ctx)
-	c := callID(rctx)
+	c := callID(rctx, rstatus)
 	inv := make([]reflect.Value, len(ins))
 	for i, x := range ins {
 		inv[i] = reflect.ValueOf(x)
 	}
 	rec.Emit("Impl", "c", c, "got", sentString(fn, inv, rctx, rstatus))
-	if rstatus["vkind"] == "oneway" {
-		defer atomic.AddInt64(&oneWayPending, -1)
+	nopts := 2
+	if v, ok := callOpts.Load(c); ok {
+		nopts = v.(int)
 	}
 	rng := rand.New(rand.NewSource(h.seed*7919 + int64(c)))
 	if fn == "fail" || rng.Intn(12) == 0 {
@@ -129,17 +154,84 @@ func (h *impl) do(ctx context.Context, fn string, ins []interface{}, ret interfa
 		ov[i] = reflect.ValueOf(o).Elem()
 		val.Fill(rng, ov[i], 1)
 	}
+	if _, big := isLarge(c); big {
+		if !(rv.IsValid() && rng.Intn(2) == 0 && inflate(rng, rv)) {
+			for _, o := range ov {
+				if inflate(rng, o) {
+					break
+				}
+			}
+		}
+	}
 	var octx, ostatus map[string]string
-	if rng.Intn(3) != 0 {
+	if rng.Intn(3) != 0 && nopts >= 1 {
 		octx = map[string]string{"rk": fmt.Sprint(rng.Intn(100)), string(randASCII(rng)): string(randASCII(rng))}
 		current.SetResponseContext(ctx, octx)
 	}
-	if rng.Intn(3) != 0 {
+	if rng.Intn(3) != 0 && nopts >= 2 {
 		ostatus = map[string]string{"rs": fmt.Sprint(c), string(randASCII(rng)): ""}
 		current.SetResponseStatus(ctx, ostatus)
 	}
 	rec.Emit("ImplRet", "c", c, "ok", true, "v", producedString(rv, ov, octx, ostatus))
 	return nil
+}
+
+// large values: strings and byte vectors longer than the transports' read buffers (4 KiB at the client), so that a
+// request or a reply spans several reads and shares reads with its neighbours.  They are confined to a short run of their
+// own (TLC fingerprints every string of every state): there, odd calls carry one in the request and in the reply, even
+// calls only in the reply.
+var largeRun int32
+
+func isLarge(c int) (req, rsp bool) {
+	if atomic.LoadInt32(&largeRun) == 0 {
+		return false, false
+	}
+	return c%2 == 1, true
+}
+
+func largeLen(rng *rand.Rand) int {
+	if rng.Intn(12) == 0 {
+		return 65536 + rng.Intn(9) - 4
+	}
+	return []int{4000, 4096, 4100, 5000, 8192, 9000, 12288}[rng.Intn(7)] + rng.Intn(17) - 8
+}
+
+// inflate makes the first string or byte vector found in v (through pointers and struct members) a long one.
+func inflate(rng *rand.Rand, v reflect.Value) bool {
+	switch v.Kind() {
+	case reflect.Ptr:
+		return !v.IsNil() && inflate(rng, v.Elem())
+	case reflect.String:
+		b := make([]byte, largeLen(rng))
+		for i := range b {
+			b[i] = byte(32 + rng.Intn(95))
+		}
+		v.SetString(string(b))
+		return true
+	case reflect.Slice:
+		ek := v.Type().Elem().Kind()
+		if ek != reflect.Int8 && ek != reflect.Uint8 {
+			return false
+		}
+		n := largeLen(rng)
+		sl := reflect.MakeSlice(v.Type(), n, n)
+		for i := 0; i < n; i++ {
+			if ek == reflect.Int8 {
+				sl.Index(i).SetInt(int64(int8(rng.Intn(256))))
+			} else {
+				sl.Index(i).SetUint(uint64(rng.Intn(256)))
+			}
+		}
+		v.Set(sl)
+		return true
+	case reflect.Struct:
+		for i := 0; i < v.NumField(); i++ {
+			if v.Field(i).CanSet() && inflate(rng, v.Field(i)) {
+				return true
+			}
+		}
+	}
+	return false
 }
 
 func randASCII(rng *rand.Rand) []byte {
@@ -190,82 +282,162 @@ func (h *impl) Deep(ctx context.Context, x *Vt.Deep, y *Vt.Deep) (ret Vt.Deep, e
 	return
 }
 
-// ---------------------------------------------------------------- pass-through filters
-func regFilters(cmode, smode string, nc, ns int) {
-	cev := func(msg *tars.Message, ph string, i int) { rec.Emit("CF", "c", callID(msg.Req.Context), "ph", ph, "i", i) }
-	sev := func(req *requestf.RequestPacket, ph string, i int) {
-		rec.Emit("SF", "c", callID(req.Context), "ph", ph, "i", i)
-	}
-	switch cmode {
-	case "legacy":
-		tars.RegisterClientFilter(func(ctx context.Context, msg *tars.Message, invoke tars.Invoke, timeout time.Duration) error {
-			cev(msg, "enter", 1)
-			err := invoke(ctx, msg, timeout)
-			cev(msg, "exit", 1)
+// ---------------------------------------------------------------- pass-through filters, registered one at a time
+// Filters are process-global and cannot be unregistered; they can be registered at any time.  reg counts what has been
+// registered so far (in: legacy / middleware / pre filters, out: the same legacy / middleware on the way back / post
+// filters); it is only touched by the main goroutine while no call is under way.
+type regStep struct{ side, kind string } // side "c" | "s"; kind "legacy" | "mw" | "pre" | "post"
+
+var reg struct{ cin, cout, sin, sout int }
+
+func cev(msg *tars.Message, ph string, i int) {
+	rec.Emit("CF", "c", callID(msg.Req.Context, msg.Req.Status), "ph", ph, "i", i)
+}
+
+func sev(req *requestf.RequestPacket, ph string, i int) {
+	rec.Emit("SF", "c", callID(req.Context, req.Status), "ph", ph, "i", i)
+}
+
+func clientMW(i int) tars.ClientFilterMiddleware {
+	return func(next tars.ClientFilter) tars.ClientFilter {
+		return func(ctx context.Context, msg *tars.Message, invoke tars.Invoke, timeout time.Duration) error {
+			cev(msg, "enter", i)
+			err := next(ctx, msg, invoke, timeout)
+			cev(msg, "exit", i)
 			return err
-		})
-	case "mw":
-		var ms []tars.ClientFilterMiddleware
-		for i := 1; i <= nc; i++ {
-			i := i
-			ms = append(ms, func(next tars.ClientFilter) tars.ClientFilter {
-				return func(ctx context.Context, msg *tars.Message, invoke tars.Invoke, timeout time.Duration) error {
-					cev(msg, "enter", i)
-					err := next(ctx, msg, invoke, timeout)
-					cev(msg, "exit", i)
-					return err
-				}
-			})
 		}
-		tars.UseClientFilterMiddleware(ms...)
+	}
+}
+
+func serverMW(i int) tars.ServerFilterMiddleware {
+	return func(next tars.ServerFilter) tars.ServerFilter {
+		return func(ctx context.Context, d tars.Dispatch, f interface{}, req *requestf.RequestPacket, resp *requestf.ResponsePacket, withContext bool) error {
+			sev(req, "enter", i)
+			err := next(ctx, d, f, req, resp, withContext)
+			sev(req, "exit", i)
+			return err
+		}
+	}
+}
+
+// regSteps lists the registrations of a configuration, per side in an order in which they can be made (filters of one
+// kind in index order; pre and post filters of a side interleaved at random when rng is given, else pre1 post1 pre2 ...).
+func regSteps(rng *rand.Rand, side, mode string, n int) []regStep {
+	var out []regStep
+	switch mode {
+	case "legacy":
+		out = append(out, regStep{side, "legacy"})
+	case "mw":
+		for i := 0; i < n; i++ {
+			out = append(out, regStep{side, "mw"})
+		}
 	case "prepost":
-		for i := 1; i <= nc; i++ {
-			i := i
+		pre, post := n, n
+		for pre+post > 0 {
+			takePre := pre >= post
+			if rng != nil && pre > 0 && post > 0 {
+				takePre = rng.Intn(2) == 0
+			}
+			if takePre && pre > 0 {
+				out = append(out, regStep{side, "pre"})
+				pre--
+			} else {
+				out = append(out, regStep{side, "post"})
+				post--
+			}
+		}
+	}
+	return out
+}
+
+// register makes one group of registrations (consecutive middlewares of a side go into one Use...Middleware call) and
+// records what is registered from now on.
+func register(group []regStep) {
+	var cms []tars.ClientFilterMiddleware
+	var sms []tars.ServerFilterMiddleware
+	var cch, sch bool
+	for _, st := range group {
+		switch st {
+		case regStep{"c", "legacy"}:
+			tars.RegisterClientFilter(func(ctx context.Context, msg *tars.Message, invoke tars.Invoke, timeout time.Duration) error {
+				cev(msg, "enter", 1)
+				err := invoke(ctx, msg, timeout)
+				cev(msg, "exit", 1)
+				return err
+			})
+			reg.cin, reg.cout = 1, 1
+		case regStep{"c", "mw"}:
+			reg.cin++
+			reg.cout++
+			cms = append(cms, clientMW(reg.cin))
+		case regStep{"c", "pre"}:
+			reg.cin++
+			i := reg.cin
 			tars.RegisterPreClientFilter(func(ctx context.Context, msg *tars.Message, invoke tars.Invoke, timeout time.Duration) error {
 				cev(msg, "pre", i)
 				return nil
 			})
+		case regStep{"c", "post"}:
+			reg.cout++
+			i := reg.cout
 			tars.RegisterPostClientFilter(func(ctx context.Context, msg *tars.Message, invoke tars.Invoke, timeout time.Duration) error {
 				cev(msg, "post", i)
 				return nil
 			})
-		}
-	}
-	switch smode {
-	case "legacy":
-		tars.RegisterServerFilter(func(ctx context.Context, d tars.Dispatch, f interface{}, req *requestf.RequestPacket, resp *requestf.ResponsePacket, withContext bool) error {
-			sev(req, "enter", 1)
-			err := d(ctx, f, req, resp, withContext)
-			sev(req, "exit", 1)
-			return err
-		})
-	case "mw":
-		var ms []tars.ServerFilterMiddleware
-		for i := 1; i <= ns; i++ {
-			i := i
-			ms = append(ms, func(next tars.ServerFilter) tars.ServerFilter {
-				return func(ctx context.Context, d tars.Dispatch, f interface{}, req *requestf.RequestPacket, resp *requestf.ResponsePacket, withContext bool) error {
-					sev(req, "enter", i)
-					err := next(ctx, d, f, req, resp, withContext)
-					sev(req, "exit", i)
-					return err
-				}
+		case regStep{"s", "legacy"}:
+			tars.RegisterServerFilter(func(ctx context.Context, d tars.Dispatch, f interface{}, req *requestf.RequestPacket, resp *requestf.ResponsePacket, withContext bool) error {
+				sev(req, "enter", 1)
+				err := d(ctx, f, req, resp, withContext)
+				sev(req, "exit", 1)
+				return err
 			})
-		}
-		tars.UseServerFilterMiddleware(ms...)
-	case "prepost":
-		for i := 1; i <= ns; i++ {
-			i := i
+			reg.sin, reg.sout = 1, 1
+		case regStep{"s", "mw"}:
+			reg.sin++
+			reg.sout++
+			sms = append(sms, serverMW(reg.sin))
+		case regStep{"s", "pre"}:
+			reg.sin++
+			i := reg.sin
 			tars.RegisterPreServerFilter(func(ctx context.Context, d tars.Dispatch, f interface{}, req *requestf.RequestPacket, resp *requestf.ResponsePacket, withContext bool) error {
 				sev(req, "pre", i)
 				return nil
 			})
+		case regStep{"s", "post"}:
+			reg.sout++
+			i := reg.sout
 			tars.RegisterPostServerFilter(func(ctx context.Context, d tars.Dispatch, f interface{}, req *requestf.RequestPacket, resp *requestf.ResponsePacket, withContext bool) error {
 				sev(req, "post", i)
 				return nil
 			})
 		}
+		if st.side == "c" {
+			cch = true
+		} else {
+			sch = true
+		}
 	}
+	if len(cms) > 0 {
+		tars.UseClientFilterMiddleware(cms...)
+	}
+	if len(sms) > 0 {
+		tars.UseServerFilterMiddleware(sms...)
+	}
+	emitReg(cch, sch)
+}
+
+func emitReg(c, s bool) {
+	if c {
+		rec.Emit("Reg", "side", "c", "nin", reg.cin, "nout", reg.cout)
+	}
+	if s {
+		rec.Emit("Reg", "side", "s", "nin", reg.sin, "nout", reg.sout)
+	}
+}
+
+// regFilters registers everything at once (the usual start-up pattern)
+func regFilters(cmode, smode string, nc, ns int) {
+	register(append(regSteps(nil, "c", cmode, nc), regSteps(nil, "s", smode, ns)...))
 }
 
 // number of in-parameters per function (the rest are out-parameters)
@@ -275,17 +447,31 @@ var idlName = map[string]string{"EchoScalars": "echoScalars", "EchoStr": "echoSt
 
 // one call through the real generated proxy, by reflection on its method
 func doCall(proxy *Vc.Call, rng *rand.Rand, c int, fn string, oneway bool) {
+	doCallV(proxy, rng, c, fn, oneway, 2, false)
+}
+
+// doCallV: nopts = number of option maps passed (2: context and status, 1: context only, 0: none -- such a call can only be
+// attributed while it is the only one under way); plain = through the generated function without a context.Context
+// parameter (two-way only).
+func doCallV(proxy *Vc.Call, rng *rand.Rand, c int, fn string, oneway bool, nopts int, plain bool) {
 	name := fn + "WithContext"
 	if oneway {
 		name = fn + "OneWayWithContext"
+	} else if plain {
+		name = fn
 	}
 	m := reflect.ValueOf(proxy).MethodByName(name)
 	mt := m.Type()
 	np := mt.NumIn() - 2 // without ctx and the variadic opts
 	args := []reflect.Value{reflect.ValueOf(context.Background())}
+	off := 1
+	if name == fn {
+		np, off = mt.NumIn()-1, 0
+		args = args[:0]
+	}
 	var ins, outs []reflect.Value
 	for i := 0; i < np; i++ {
-		pt := mt.In(i + 1)
+		pt := mt.In(i + off)
 		var v reflect.Value
 		if pt.Kind() == reflect.Ptr {
 			v = reflect.New(pt.Elem())
@@ -303,6 +489,13 @@ func doCall(proxy *Vc.Call, rng *rand.Rand, c int, fn string, oneway bool) {
 			outs = append(outs, v)
 		}
 	}
+	if big, _ := isLarge(c); big {
+		for _, v := range ins {
+			if inflate(rng, v) {
+				break
+			}
+		}
+	}
 	ctxMap := map[string]string{"vcall": strconv.Itoa(c)}
 	for k := rng.Intn(3); k > 0; k-- {
 		ctxMap[string(randASCII(rng))] = string(randASCII(rng))
@@ -314,7 +507,17 @@ func doCall(proxy *Vc.Call, rng *rand.Rand, c int, fn string, oneway bool) {
 	for k := rng.Intn(3); k > 0; k-- {
 		status[string(randASCII(rng))] = string(randASCII(rng))
 	}
-	args = append(args, reflect.ValueOf(ctxMap), reflect.ValueOf(status))
+	switch nopts {
+	case 2:
+		args = append(args, reflect.ValueOf(ctxMap), reflect.ValueOf(status))
+	case 1:
+		args = append(args, reflect.ValueOf(ctxMap))
+		status = nil
+	default:
+		ctxMap, status = nil, nil
+	}
+	callOpts.Store(c, nopts)
+	atomic.AddInt64(&callsMade, 1)
 	if oneway {
 		atomic.AddInt64(&oneWayPending, 1)
 	} else {
@@ -357,6 +560,9 @@ func main() {
 	mode := flag.String("mode", "calls", "calls | serve (child: run a server until killed) | hostile (parent: hostile packets against children)")
 	proto := flag.String("proto", "tcp", "serve mode: tcp|udp")
 	portFlag := flag.Int("port", 0, "serve mode: port")
+	staged := flag.Bool("staged", true, "calls mode: a first run in which the filters are registered in stages, with calls in between")
+	large := flag.Int("large", 8, "calls mode: a short run of this many concurrent calls with values larger than the transports' read buffers (0: none)")
+	serial := flag.Bool("serial", true, "calls mode: a run of serial calls through every generated entry point with 0, 1 or 2 option maps")
 	nHostile := flag.Int("hostile", 600, "hostile mode: inputs per entry point")
 	flag.Parse()
 	if *mode == "clientvictim" {
@@ -411,11 +617,14 @@ func main() {
 	if os.Getenv("VERIF_LOG") == "" {
 		rogger.SetLevel(rogger.OFF)
 	}
-	regFilters(*cmode, *smode, *nc, *ns)
+	stagedRound := *staged && *mode == "calls"
+	if !stagedRound {
+		regFilters(*cmode, *smode, *nc, *ns)
+	}
 	hits := map[string]int{}
 	var hmu sync.Mutex
 	vhook.Set(func(point string, a ...interface{}) {
-		if point != "tcp.handler.written" || len(a) < 2 {
+		if (point != "tcp.handler.written" && point != "tcp.handler.invoked") || len(a) < 2 {
 			return
 		}
 		pkg, _ := a[1].([]byte)
@@ -423,14 +632,23 @@ func main() {
 			return
 		}
 		var rq requestf.RequestPacket
-		if rq.ReadFrom(codec.NewReader(pkg[4:])) == nil {
-			if c := callID(rq.Context); c != 0 {
-				hmu.Lock()
-				hits[point]++
-				hmu.Unlock()
-				rec.Emit("Written", "c", c)
-				atomic.AddInt64(&writtenRound, 1)
+		if rq.ReadFrom(codec.NewReader(pkg[4:])) != nil {
+			return
+		}
+		if point == "tcp.handler.invoked" {
+			// the server side of a request is over (filters on the way back included); for a one-way request nothing else
+			// will say so
+			if rq.CPacketType == basef.TARSONEWAY && rq.SFuncName != "tars_ping" {
+				atomic.AddInt64(&oneWayPending, -1)
 			}
+			return
+		}
+		if c := callID(rq.Context, rq.Status); c != 0 {
+			hmu.Lock()
+			hits[point]++
+			hmu.Unlock()
+			rec.Emit("Written", "c", c)
+			atomic.AddInt64(&writtenRound, 1)
 		}
 	})
 	app := new(Vc.Call)
@@ -457,44 +675,144 @@ func main() {
 		panic(err)
 	}
 	ncalls := 0
-	for r := 0; r < *rounds; r++ {
-		rec = tr.New()
+	// quiesce waits until nothing is under way on either side (a lost one-way call: its Impl event is missing and the run
+	// is rejected at the next Reset / Reg)
+	slow := 0
+	quiesce := func() {
+		lim := 3000
+		if slow > 0 {
+			lim = 300 // a tree on which the wait already ran out once: do not spend the budget on waiting
+		}
+		i := 0
+		for ; i < lim && atomic.LoadInt64(&oneWayPending) > 0; i++ {
+			time.Sleep(time.Millisecond)
+		}
+		if i == lim {
+			slow++
+		}
+		atomic.StoreInt64(&oneWayPending, 0)
+		// the hook after conn.Write may still be on its way for the last replies
+		for i = 0; i < lim && atomic.LoadInt64(&writtenRound) < atomic.LoadInt64(&twoWayRound); i++ {
+			time.Sleep(time.Millisecond)
+		}
+		if i == lim {
+			slow++
+		}
+		time.Sleep(2 * time.Millisecond)
+	}
+	// calls ids lo..hi by conc callers sharing the proxy
+	batch := func(r, lo, hi, conc int) {
 		var wg sync.WaitGroup
-		ids := make(chan int, *per)
-		for c := 1; c <= *per; c++ {
+		ids := make(chan int, hi-lo+1)
+		for c := lo; c <= hi; c++ {
 			ids <- c
 		}
 		close(ids)
-		for g := 0; g < *conc; g++ {
+		for g := 0; g < conc; g++ {
 			wg.Add(1)
 			go func(g int) {
 				defer wg.Done()
-				rng := rand.New(rand.NewSource(*seed*1000003 + int64(r)*1009 + int64(g)))
+				rng := rand.New(rand.NewSource(*seed*1000003 + int64(r)*1009 + int64(g) + int64(lo)*7))
 				for c := range ids {
 					fn := fns[rng.Intn(len(fns))]
-					doCall(proxy, rng, c, fn, rng.Intn(6) == 0)
+					oneway := rng.Intn(6) == 0
+					// entry points: the function with / without a context.Context parameter; context and status, or the context alone
+					nopts, plain := 2, false
+					if rng.Intn(4) == 0 {
+						nopts = 1
+					}
+					if !oneway && rng.Intn(4) == 0 {
+						plain = true
+					}
+					doCallV(proxy, rng, c, fn, oneway, nopts, plain)
 				}
 			}(g)
 		}
 		wg.Wait()
-		for i := 0; i < 3000 && atomic.LoadInt64(&oneWayPending) > 0; i++ { // a lost one-way call: its Impl event is missing and the run is rejected at Reset
-			time.Sleep(time.Millisecond)
-		}
-		atomic.StoreInt64(&oneWayPending, 0)
-		// the hook after conn.Write may still be on its way for the last replies: wait for it before closing the round
-		for i := 0; i < 500 && atomic.LoadInt64(&writtenRound) < atomic.LoadInt64(&twoWayRound); i++ {
-			time.Sleep(time.Millisecond)
-		}
+		quiesce()
+	}
+	endRound := func(kind string) {
 		atomic.StoreInt64(&writtenRound, 0)
 		atomic.StoreInt64(&twoWayRound, 0)
-		time.Sleep(2 * time.Millisecond)
+		callOpts.Range(func(k, _ interface{}) bool { callOpts.Delete(k); return true })
 		old := rec
 		rec = tr.New()
 		for _, ev := range old.Close() {
 			w.Write(ev)
 		}
-		w.Write(tr.Ev{"e": "Reset"})
-		ncalls += *per
+		w.Write(tr.Ev{"e": "Reset", "kind": kind})
+		ncalls += int(atomic.SwapInt64(&callsMade, 0))
+	}
+	if stagedRound {
+		// filters registered while the process is running: no filter, calls, some registrations, calls, ... until the whole
+		// configuration is registered.  Every call has to pass exactly the filters registered when it was made.
+		rec = tr.New()
+		rng := rand.New(rand.NewSource(*seed*31 + 5))
+		cs, ss := regSteps(rng, "c", *cmode, *nc), regSteps(rng, "s", *smode, *ns)
+		var steps []regStep
+		for len(cs)+len(ss) > 0 {
+			if len(ss) == 0 || (len(cs) > 0 && rng.Intn(2) == 0) {
+				steps, cs = append(steps, cs[0]), cs[1:]
+			} else {
+				steps, ss = append(steps, ss[0]), ss[1:]
+			}
+		}
+		// at most 5 groups of registrations; a group ends after each cut position, the last group at the last step
+		isCut := map[int]bool{}
+		if len(steps) > 0 {
+			isCut[len(steps)-1] = true
+			for _, k := range rng.Perm(len(steps) - 1) {
+				if len(isCut) >= 5 {
+					break
+				}
+				isCut[k] = true
+			}
+		}
+		nst := len(isCut) + 1
+		sz := *per / nst
+		lo := 1
+		batch(-1, lo, lo+sz-1, *conc) // nothing registered yet
+		lo += sz
+		var group []regStep
+		for k, st := range steps {
+			group = append(group, st)
+			if isCut[k] {
+				register(group)
+				group = nil
+				batch(-1, lo, lo+sz-1, *conc)
+				lo += sz
+			}
+		}
+		endRound("staged")
+	}
+	if *serial {
+		// one call at a time: calls without any option map can be attributed, every entry point with 0, 1 and 2 maps
+		rec = tr.New()
+		emitReg(reg.cin+reg.cout > 0, reg.sin+reg.sout > 0)
+		rng := rand.New(rand.NewSource(*seed*37 + 11))
+		for c := 1; c <= *per; c++ {
+			fn := fns[rng.Intn(len(fns))]
+			oneway := rng.Intn(4) == 0
+			atomic.StoreInt64(&serialCall, int64(c))
+			doCallV(proxy, rng, c, fn, oneway, rng.Intn(3), !oneway && rng.Intn(2) == 0)
+			quiesce() // also for a two-way call: the hook after conn.Write of its reply is attributed through serialCall too
+		}
+		atomic.StoreInt64(&serialCall, 0)
+		endRound("serial")
+	}
+	if *large > 0 {
+		rec = tr.New()
+		emitReg(reg.cin+reg.cout > 0, reg.sin+reg.sout > 0)
+		atomic.StoreInt32(&largeRun, 1)
+		batch(-2, 1, *large, *conc)
+		atomic.StoreInt32(&largeRun, 0)
+		endRound("large")
+	}
+	for r := 0; r < *rounds; r++ {
+		rec = tr.New()
+		emitReg(reg.cin+reg.cout > 0, reg.sin+reg.sout > 0)
+		batch(r, 1, *per, *conc)
+		endRound("")
 	}
 	w.Close()
 	hmu.Lock()
